@@ -1,4 +1,305 @@
-import IsoDT.Model.DurText
+/-
+  C10 — Durations survive a round trip through text.
+
+  `toText` is `Duration.__str__`, `parse` is `DurationParser.parse` (Model/DurText.lean), the three
+  regular expressions are the regenerated `Gen.durRegex0/1/2` (Gen/DurRegex.lean, read from the live
+  compiled patterns) run by the leftmost-greedy backtracking matcher `Re.run`.  Components are
+  integers; hours/minutes/seconds pass through `float(...)`, modelled as the nearest binary64 value
+  (`f64Nat`).  Decimal components are outside these theorems (observed by the harness only).
+-/
+import IsoDT.Lemmas.DurText
+
 namespace IsoDT.Props.C10
-theorem stub : True := trivial
+open IsoDT IsoDT.Model IsoDT.Model.DurText IsoDT.Gen IsoDT.Lemmas IsoDT.Lemmas.DurText
+
+/-- All non-zero components share one sign (the week form has a single component). -/
+def SingleSigned : Dur → Prop
+  | .weeks _ => True
+  | .units y mo d h mi s =>
+    (0 ≤ y ∧ 0 ≤ mo ∧ 0 ≤ d ∧ 0 ≤ h ∧ 0 ≤ mi ∧ 0 ≤ s) ∨ (y ≤ 0 ∧ mo ≤ 0 ∧ d ≤ 0 ∧ h ≤ 0 ∧ mi ≤ 0 ∧ s ≤ 0)
+
+/-- Hours, minutes and seconds are integers binary64 holds exactly (the parser reads them with
+    `float`); true of everything below 2^53 (`timeExact_of_lt`). -/
+def TimeExact : Dur → Prop
+  | .weeks _ => True
+  | .units _ _ _ h mi s => F64Exact h.natAbs ∧ F64Exact mi.natAbs ∧ F64Exact s.natAbs
+
+theorem timeExact_of_lt (y mo d h mi s : Int) (hh : h.natAbs < 2 ^ 53) (hmi : mi.natAbs < 2 ^ 53)
+    (hs : s.natAbs < 2 ^ 53) : TimeExact (.units y mo d h mi s) :=
+  ⟨f64Exact_of_lt _ hh, f64Exact_of_lt _ hmi, f64Exact_of_lt _ hs⟩
+
+/-- What `parse (str d)` returns: `d` itself, except that an empty duration (also the empty week
+    form `0W`, which prints as `P0Y`) comes back as the empty unit form. -/
+def normal (d : Dur) : Dur := if d.nonzero then d else .units 0 0 0 0 0 0
+
+/-- **C10 round trip**: for every single-signed integer duration `d` (unit form with any mix of
+    absent/zero/present units, or week form; either sign; components of any size, the time units
+    exactly representable in binary64), in every calendar mode: `DurationParser.parse(str(d))`
+    succeeds with `normal d` (field for field `d`, the empty duration as `P0Y`), which `==` `d`
+    (both operand orders), and `str` is a fixpoint.  Python evaluates `==` in binary64 once a slot
+    is a float; `Dur.eq` here is over exact integers (they agree up to 2^53 seconds, observed by
+    the harness op `drteq`).  Mixed-sign durations are outside the property (`str` prints e.g.
+    `P1Y-2M`, which is not parseable: `C10_mixed_sign_unparseable_example`). -/
+theorem C10_roundtrip (m : Mode) (d : Dur) (hs : SingleSigned d) (hx : TimeExact d) :
+    parse m (toText d) = .ok (normal d) ∧ Dur.eq m (normal d) d = true ∧ Dur.eq m d (normal d) = true ∧
+      toText (normal d) = toText d := by
+  by_cases hnz : d.nonzero = true
+  · have hn : normal d = d := by unfold normal; rw [if_pos hnz]
+    rw [hn]
+    refine ⟨?_, dur_eq_refl m d, dur_eq_refl m d, rfl⟩
+    cases d with
+    | weeks w =>
+      have hw : w ≠ 0 := by simpa [Dur.nonzero] using hnz
+      by_cases hpos : 0 < w
+      · rw [toText_weeks_pos w hpos]
+        unfold desigW
+        rw [parse_pos m _ (desigW_ascii _ (natDigits_digs _))]
+        have := parseBody_desigW m 1 _ (natDigits_digs w.natAbs) (natDigits_ne_nil _)
+        unfold desigW at this
+        rw [this, digitsVal_natDigits, ← mkDur_weeks m w hw]
+        congr 2; omega
+      · rw [toText_weeks_neg w (by omega), parse_neg m _ (desigW_ascii _ (natDigits_digs _)),
+          parseBody_desigW m (-1) _ (natDigits_digs w.natAbs) (natDigits_ne_nil _), digitsVal_natDigits,
+          ← mkDur_weeks m w hw]
+        congr 2; omega
+    | units y mo dd h mi s =>
+      obtain ⟨xh, xmi, xs⟩ := hx
+      rcases hs with ⟨a1, a2, a3, a4, a5, a6⟩ | ⟨a1, a2, a3, a4, a5, a6⟩
+      · rw [toText_units_pos y mo dd h mi s a1 a2 a3 a4 a5 a6 hnz]
+        unfold desig
+        rw [parse_pos m _ (desig_ascii _ _ _ _ (ofv_good y) (ofv_good mo) (ofv_good dd) (tOf_good h mi s))]
+        have := parseBody_units m 1 y mo dd h mi s a1 a2 a3 a4 a5 a6 xh xmi xs
+        unfold desig at this
+        rw [this]
+        simp only [Int.mul_one]
+      · rw [toText_units_neg y mo dd h mi s a1 a2 a3 a4 a5 a6 hnz,
+          parse_neg m _ (desig_ascii _ _ _ _ (ofv_good _) (ofv_good _) (ofv_good _) (tOf_good _ _ _)),
+          parseBody_units m (-1) (-y) (-mo) (-dd) (-h) (-mi) (-s) (by omega) (by omega) (by omega) (by omega)
+            (by omega) (by omega) (by rw [Int.natAbs_neg]; exact xh) (by rw [Int.natAbs_neg]; exact xmi)
+            (by rw [Int.natAbs_neg]; exact xs)]
+        simp only [Int.mul_neg, Int.mul_one, Int.neg_neg]
+  · have hz : d.nonzero = false := by simpa using hnz
+    have hn : normal d = .units 0 0 0 0 0 0 := by unfold normal; rw [hz]; rfl
+    rw [hn, toText_zero d hz]
+    have hp : parse m ['P', '0', 'Y'] = .ok (.units 0 0 0 0 0 0) := by
+      have e : (['P', '0', 'Y'] : List Char) = desig (some ['0']) none none none := rfl
+      have g : GoodF (some ['0']) := GoodF.some (Digs.cons (by decide) Digs.nil) (by simp)
+      rw [e]
+      unfold desig
+      rw [parse_pos m _ (desig_ascii (some ['0']) none none none g GoodF.none GoodF.none trivial)]
+      have := parseBody_desig m 1 (some ['0']) none none none g GoodF.none GoodF.none trivial trivial
+      unfold desig at this
+      rw [this, mkDur_units]
+      rfl
+    refine ⟨hp, ?_, ?_, ?_⟩
+    · cases d with
+      | weeks w =>
+        have : w = 0 := by simpa [Dur.nonzero] using hz
+        subst this
+        simp [Dur.eq, Dur.isExact, Dur.exactSeconds]
+      | units y mo dd h mi s =>
+        simp only [Dur.nonzero, Bool.or_eq_false_iff, bne_eq_false_iff_eq] at hz
+        obtain ⟨⟨⟨⟨⟨rfl, rfl⟩, rfl⟩, rfl⟩, rfl⟩, rfl⟩ := hz
+        exact dur_eq_refl m _
+    · cases d with
+      | weeks w =>
+        have : w = 0 := by simpa [Dur.nonzero] using hz
+        subst this
+        simp [Dur.eq, Dur.isExact, Dur.exactSeconds]
+      | units y mo dd h mi s =>
+        simp only [Dur.nonzero, Bool.or_eq_false_iff, bne_eq_false_iff_eq] at hz
+        obtain ⟨⟨⟨⟨⟨rfl, rfl⟩, rfl⟩, rfl⟩, rfl⟩, rfl⟩ := hz
+        exact dur_eq_refl m _
+    · rfl
+
+/-- The recursion in `__str__`: for a fully negative value the text is `-` followed by the text of
+    `abs(self)` (the model's `toText` spells the recursive call out as `toTextPos`; this is the
+    justification). -/
+theorem C10_str_negative (d : Dur) (hnz : d.nonzero = true) (hneg : fullyNegLoop (comps d) false = true) :
+    toText d = '-' :: toText d.abs := by
+  have h1 : d.abs.nonzero = true := by
+    cases d <;> simp only [Dur.abs, Dur.nonzero, Bool.or_eq_true, bne_iff_ne, ne_eq] at hnz ⊢ <;> omega
+  have h2 : fullyNegLoop (comps d.abs) false = false := by
+    apply fnl_nonneg
+    intro v hv
+    cases d <;> simp only [Dur.abs, comps, List.mem_cons, List.not_mem_nil, or_false] at hv <;> omega
+  conv => lhs; unfold toText
+  conv => rhs; unfold toText
+  simp only [hnz, hneg, h1, h2, Bool.not_true, Bool.false_eq_true, ↓reduceIte]
+
+/-- The sign prefix of a designator string. -/
+def signed (neg : Bool) (s : List Char) : List Char := if neg then '-' :: s else s
+def sgn (neg : Bool) : Int := if neg then -1 else 1
+
+/-- **C10 designators**: every string `[-]P[nY][nM][nD][T[nH][nM][nS]]` — each field an arbitrary
+    non-empty run of ASCII digits (leading zeros, any length) or absent, the `T` part absent or
+    present (even with no field after it), a leading `-` or not — is accepted and decodes to exactly
+    its fields: years, months, days are the integers written, hours, minutes, seconds the nearest
+    binary64 value of the integer written (`fval`; the integer itself below 2^53), absent fields are
+    0, and a leading `-` negates every field.  The greedy `\d.*` groups of the second pattern back
+    off to exactly the digits of their own unit on these strings.  (Time fields are taken below the
+    binary64 overflow threshold `2^1023`; the model answers `outside` beyond it.) -/
+theorem C10_designators (m : Mode) (neg : Bool) (fy fmo fd : Option (List Char)) (ft : Option TimeF)
+    (hy : GoodF fy) (hmo : GoodF fmo) (hd : GoodF fd) (ht : GoodT ft) (hb : FltOkT ft) :
+    parse m (signed neg (desig fy fmo fd ft)) =
+      .ok (.units (ival fy * sgn neg) (ival fmo * sgn neg) (ival fd * sgn neg)
+        ((tvals ft).1 * sgn neg) ((tvals ft).2.1 * sgn neg) ((tvals ft).2.2 * sgn neg)) := by
+  have hasc := desig_ascii fy fmo fd ft hy hmo hd ht
+  cases neg with
+  | true =>
+    show parse m ('-' :: desig fy fmo fd ft) = _
+    rw [parse_neg m _ hasc, parseBody_desig m (-1) fy fmo fd ft hy hmo hd ht hb, mkDur_units]
+    rfl
+  | false =>
+    show parse m (desig fy fmo fd ft) = _
+    have := parseBody_desig m 1 fy fmo fd ft hy hmo hd ht hb
+    unfold desig at this hasc ⊢
+    rw [parse_pos m _ hasc, this, mkDur_units]
+    rfl
+
+/-- **C10 designators, week form**: `[-]PnW` (n any non-empty run of ASCII digits) decodes to the
+    week-form duration of n weeks, negated by a leading `-`; `P0W` is the empty duration. -/
+theorem C10_designators_weeks (m : Mode) (neg : Bool) (ds : List Char) (h : Digs ds) (hne : ds ≠ []) :
+    parse m (signed neg (desigW ds)) =
+      .ok (if digitsVal ds = 0 then .units 0 0 0 0 0 0 else .weeks ((digitsVal ds : Int) * sgn neg)) := by
+  have hasc := desigW_ascii ds h
+  have key : ∀ sg : Int, sg ≠ 0 → mkDur m 0 0 ((digitsVal ds : Int) * sg) 0 0 0 0 =
+      if digitsVal ds = 0 then .units 0 0 0 0 0 0 else .weeks ((digitsVal ds : Int) * sg) := by
+    intro sg hsg
+    by_cases hz : digitsVal ds = 0
+    · rw [if_pos hz, hz]; simp [mkDur_units]
+    · rw [if_neg hz]
+      exact mkDur_weeks m _ (Int.mul_ne_zero (by omega) hsg)
+  cases neg with
+  | true =>
+    show parse m ('-' :: desigW ds) = _
+    rw [parse_neg m _ hasc, parseBody_desigW m (-1) ds h hne, key (-1) (by decide)]
+    rfl
+  | false =>
+    show parse m (desigW ds) = _
+    have := parseBody_desigW m 1 ds h hne
+    unfold desigW at this hasc ⊢
+    rw [parse_pos m _ hasc, this, key 1 (by decide)]
+    rfl
+
+/-- **C10 alternative spelling**: each complete date-time-like spelling — extended calendar
+    `P[YYYY]-[MM]-[DD]T[hh]:[mm]:[ss]`, basic calendar `PYYYYMMDDThhmmss`, extended ordinal
+    `P[YYYY]-[DDD]T[hh]:[mm]:[ss]`, basic ordinal `PYYYYDDDThhmmss`, any digits in the fields (no
+    range check: `P9999-99-99T99:99:99` is 9999 years 99 months ...) — matches none of the three
+    designator patterns, goes through the time-point parser, and denotes exactly the duration its
+    designator spelling with the same digit runs (`P[YYYY]Y[MM]M[DD]DT[hh]H[mm]M[ss]S`) denotes. -/
+theorem C10_alt (m : Mode) (yy mm dd ddd hh mi ss : List Char)
+    (h1 : Digs yy) (l1 : yy.length = 4) (h2 : Digs mm) (l2 : mm.length = 2) (h3 : Digs dd) (l3 : dd.length = 2)
+    (h3' : Digs ddd) (l3' : ddd.length = 3)
+    (h4 : Digs hh) (l4 : hh.length = 2) (h5 : Digs mi) (l5 : mi.length = 2) (h6 : Digs ss) (l6 : ss.length = 2) :
+    let cal := Dur.units (digitsVal yy) (digitsVal mm) (digitsVal dd) (digitsVal hh) (digitsVal mi) (digitsVal ss)
+    let ord := Dur.units (digitsVal yy) 0 (digitsVal ddd) (digitsVal hh) (digitsVal mi) (digitsVal ss)
+    parse m ('P' :: altXC yy mm dd hh mi ss) = .ok cal ∧
+    parse m ('P' :: altBC yy mm dd hh mi ss) = .ok cal ∧
+    parse m (desig (some yy) (some mm) (some dd) (some (some hh, some mi, some ss))) = .ok cal ∧
+    parse m ('P' :: altXO yy ddd hh mi ss) = .ok ord ∧
+    parse m ('P' :: altBO yy ddd hh mi ss) = .ok ord ∧
+    parse m (desig (some yy) none (some ddd) (some (some hh, some mi, some ss))) = .ok ord := by
+  have ne_of_len : ∀ (l : List Char) (n : Nat), l.length = n + 1 → l ≠ [] := by
+    intro l n h e; rw [e] at h; simp at h
+  have small : ∀ (l : List Char), l.length = 2 → Digs l → F64Exact (digitsVal l) := by
+    intro l hl hd
+    obtain ⟨a, b, rfl⟩ := len2 l hl
+    apply f64Exact_of_lt
+    have ha := (isDig_iff a).mp (hd a (by simp))
+    have hb := (isDig_iff b).mp (hd b (by simp))
+    simp only [digitsVal, List.foldl_cons, List.foldl_nil]
+    omega
+  have gt : GoodT (some (some hh, some mi, some ss)) :=
+    ⟨GoodF.some h4 (ne_of_len _ 1 l4), GoodF.some h5 (ne_of_len _ 1 l5), GoodF.some h6 (ne_of_len _ 1 l6)⟩
+  have bt : FltOkT (some (some hh, some mi, some ss)) := by
+    refine ⟨?_, ?_, ?_⟩ <;> intro ds e <;> injection e with e <;> rw [← e]
+    · exact (small hh l4 h4).1
+    · exact (small mi l5 h5).1
+    · exact (small ss l6 h6).1
+  have tv : tvals (some (some hh, some mi, some ss)) = ((digitsVal hh : Int), (digitsVal mi : Int), (digitsVal ss : Int)) := by
+    simp only [tvals, fval, (small hh l4 h4).2, (small mi l5 h5).2, (small ss l6 h6).2]
+  refine ⟨parse_altXC m yy mm dd hh mi ss h1 l1 h2 l2 h3 l3 h4 l4 h5 l5 h6 l6,
+    parse_altBC m yy mm dd hh mi ss h1 l1 h2 l2 h3 l3 h4 l4 h5 l5 h6 l6, ?_,
+    parse_altXO m yy ddd hh mi ss h1 l1 h3' l3' h4 l4 h5 l5 h6 l6,
+    parse_altBO m yy ddd hh mi ss h1 l1 h3' l3' h4 l4 h5 l5 h6 l6, ?_⟩
+  · have := C10_designators m false (some yy) (some mm) (some dd) _ (GoodF.some h1 (ne_of_len _ 3 l1))
+      (GoodF.some h2 (ne_of_len _ 1 l2)) (GoodF.some h3 (ne_of_len _ 1 l3)) gt bt
+    simp only [signed, sgn, Bool.false_eq_true, ↓reduceIte, Int.mul_one, tv, ival] at this
+    exact this
+  · have := C10_designators m false (some yy) none (some ddd) _ (GoodF.some h1 (ne_of_len _ 3 l1))
+      GoodF.none (GoodF.some h3' (ne_of_len _ 2 l3')) gt bt
+    simp only [signed, sgn, Bool.false_eq_true, ↓reduceIte, Int.mul_one, tv, ival] at this
+    exact this
+
+/-- The alternative spelling of numeric fields (zero-padded to the fixed widths) denotes the same
+    duration as the canonical designator text `str` prints for those fields. -/
+theorem C10_alt_canonical (m : Mode) (Y M D h mi s : Nat) (hY : Y < 10000) (hM : M < 100) (hD : D < 100)
+    (hh : h < 100) (hmi : mi < 100) (hs : s < 100) :
+    parse m ('P' :: altXC (renderW 4 Y) (renderW 2 M) (renderW 2 D) (renderW 2 h) (renderW 2 mi) (renderW 2 s)) =
+      .ok (.units Y M D h mi s) ∧
+    parse m ('P' :: altBC (renderW 4 Y) (renderW 2 M) (renderW 2 D) (renderW 2 h) (renderW 2 mi) (renderW 2 s)) =
+      .ok (.units Y M D h mi s) ∧
+    parse m (toText (.units Y M D h mi s)) = .ok (normal (.units Y M D h mi s)) ∧
+    Dur.eq m (normal (.units Y M D h mi s)) (.units Y M D h mi s) = true := by
+  have e4 : digitsVal (renderW 4 Y) = Y := by rw [digitsVal_renderW]; exact Nat.mod_eq_of_lt hY
+  have e2 : ∀ v, v < 100 → digitsVal (renderW 2 v) = v := by
+    intro v hv; rw [digitsVal_renderW]; exact Nat.mod_eq_of_lt hv
+  have a := C10_alt m (renderW 4 Y) (renderW 2 M) (renderW 2 D) (renderW 3 D) (renderW 2 h) (renderW 2 mi)
+    (renderW 2 s) (renderW_digs _ _) (renderW_length _ _) (renderW_digs _ _) (renderW_length _ _)
+    (renderW_digs _ _) (renderW_length _ _) (renderW_digs _ _) (renderW_length _ _) (renderW_digs _ _)
+    (renderW_length _ _) (renderW_digs _ _) (renderW_length _ _) (renderW_digs _ _) (renderW_length _ _)
+  simp only [e4, e2 M hM, e2 D hD, e2 h hh, e2 mi hmi, e2 s hs] at a
+  have r := C10_roundtrip m (.units Y M D h mi s)
+    (Or.inl ⟨by omega, by omega, by omega, by omega, by omega, by omega⟩)
+    (timeExact_of_lt _ _ _ _ _ _ (by simp only [Int.natAbs_natCast]; omega)
+      (by simp only [Int.natAbs_natCast]; omega) (by simp only [Int.natAbs_natCast]; omega))
+  exact ⟨a.1, a.2.1, r.1, r.2.1⟩
+
+/-- **Counter-witness (float domain)**: the round trip at full strength — *every* single-signed
+    integer duration — is false of the code: an hours/minutes/seconds integer that binary64 cannot
+    hold comes back rounded, because the parser reads those groups with `float`.  `PT9007199254740993S`
+    (2^53 + 1 seconds) parses to 2^53 seconds, which is not equal to the original. -/
+theorem C10_roundtrip_counter_beyond_binary64 :
+    SingleSigned (.units 0 0 0 0 0 (2 ^ 53 + 1)) ∧
+    parse .greg (toText (.units 0 0 0 0 0 (2 ^ 53 + 1))) = .ok (.units 0 0 0 0 0 (2 ^ 53)) ∧
+    Dur.eq .greg (.units 0 0 0 0 0 (2 ^ 53)) (.units 0 0 0 0 0 (2 ^ 53 + 1)) = false := by
+  refine ⟨Or.inl (by decide), by decide +kernel, by decide +kernel⟩
+
+/-- A mixed-sign duration prints as text the parser refuses (outside the property, recorded). -/
+theorem C10_mixed_sign_unparseable_example :
+    toText (.units 1 (-2) 0 0 0 0) = "P1Y-2M".toList ∧
+    parse .greg (toText (.units 1 (-2) 0 0 0 0)) = .syntaxErr := by
+  refine ⟨by decide +kernel, by decide +kernel⟩
+
+/-! ## Non-vacuity -/
+
+theorem digs_of_all (ds : List Char) (h : ds.all isDig = true) : Digs ds := by
+  intro c hc; exact List.all_eq_true.mp h c hc
+
+example : SingleSigned (.units (-1) 0 (-3) 0 (-59) 0) ∧ TimeExact (.units (-1) 0 (-3) 0 (-59) 0) ∧
+    toText (.units (-1) 0 (-3) 0 (-59) 0) = "-P1Y3DT59M".toList ∧
+    parse .d360 "-P1Y3DT59M".toList = .ok (.units (-1) 0 (-3) 0 (-59) 0) := by
+  refine ⟨Or.inr (by decide), timeExact_of_lt _ _ _ _ _ _ (by decide) (by decide) (by decide),
+    by decide +kernel, by decide +kernel⟩
+example : toText (.weeks (-52)) = "-P52W".toList ∧ parse .greg "-P52W".toList = .ok (.weeks (-52)) ∧
+    toText (.weeks 0) = "P0Y".toList ∧ normal (.weeks 0) = .units 0 0 0 0 0 0 := by
+  refine ⟨by decide +kernel, by decide +kernel, by decide +kernel, by decide⟩
+-- leading zeros, a long digit run, the `T` part with greedy groups, and the sign
+example : GoodF (some "007".toList) ∧ GoodT (some (none, some "90".toList, some "0061".toList)) ∧
+    parse .greg "-P007YT90M0061S".toList = .ok (.units (-7) 0 0 0 (-90) (-61)) := by
+  refine ⟨GoodF.some (digs_of_all _ (by decide)) (by decide), ⟨GoodF.none,
+    GoodF.some (digs_of_all _ (by decide)) (by decide), GoodF.some (digs_of_all _ (by decide)) (by decide)⟩,
+    by decide +kernel⟩
+example : parse .greg "P0001-02-03T04:05:06".toList = .ok (.units 1 2 3 4 5 6) ∧
+    parse .greg "P00010203T040506".toList = .ok (.units 1 2 3 4 5 6) ∧
+    parse .greg "P0001-034T04:05:06".toList = .ok (.units 1 0 34 4 5 6) ∧
+    parse .greg "P0001034T040506".toList = .ok (.units 1 0 34 4 5 6) ∧
+    parse .greg "P0001Y02M03DT04H05M06S".toList = .ok (.units 1 2 3 4 5 6) := by
+  refine ⟨by decide +kernel, by decide +kernel, by decide +kernel, by decide +kernel, by decide +kernel⟩
+-- what the greedy groups do off the designator grammar (a ValueError of float(), not a syntax error)
+example : parse .greg "PT1H2H".toList = .valueErr ∧ parse .greg "P1Y2M3D4H".toList = .syntaxErr ∧
+    parse .greg "-P0001-02-03T04:05:06".toList = .syntaxErr := by
+  refine ⟨by decide +kernel, by decide +kernel, by decide +kernel⟩
+
 end IsoDT.Props.C10
